@@ -108,7 +108,7 @@ macro_rules! parts {
     }};
 }
 
-static SYS: LockStep = LockStep { property: "C08", probes: false, seed: None, via_feed: false, merged: false };
+static SYS: LockStep = LockStep { property: "C08", probes: false, seed: None, via_feed: false, merged: true };
 
 /// every way of blanking cells must use the current pen
 fn blank_seed(cfg: &Cfg) -> Vec<Cmd> {
